@@ -283,6 +283,12 @@ class Check:
     def violation(self, key, what, replay):
         """A concrete failing input.  `key` identifies the input / call site / schedule shape and is
         matched against open entries of KNOWN_FINDINGS.json."""
+        if "wall-clock timeout of the simulation" in what:
+            # a thread of the code under test sat in something the harness does not simulate (real time passed, no
+            # simulated step): that says the harness cannot follow this code, not that the property fails
+            if not any(b["obligation"] == "simulation harness" for b in self.broken):
+                self.obligation_broken("simulation harness", "a session did not finish in wall-clock time: a thread blocked on a primitive the harness does not simulate; " + what[:200])
+            return
         for e in self.known:
             if e.get("status") == "open" and re.fullmatch(e["key"], key):
                 self.known_hit.setdefault(e["key"], (e, what))
